@@ -1,5 +1,5 @@
-(* C17: the keyword <-> token dictionaries are bijections (finite check lifted to forall), plus basic facts
-   about assoc / mem / byte classes used by the other C17 proof files. *)
+(* C17: basic facts about assoc / mem / byte classes and the boolean bijection check used by the other C17
+   proof files (the check itself is run on the regenerated tables in proofs/Tok_bijection.v). *)
 From Coq Require Import ZArith List Bool Lia.
 From PCB Require Import lib.Result lib.PyInt lib.Harness gen.Gen_tokens model.Tok.
 Import ListNotations.
@@ -102,23 +102,6 @@ Proof.
   - apply inv_ok_spec. assumption.
   - apply inv_ok_spec. assumption.
   - apply Nat.eqb_eq. assumption.
-Qed.
-
-Lemma tables_bijective_advanced : bijective_tables to_keyword_advanced to_token_advanced.
-Proof. apply bijective_tablesb_sound. vm_compute. reflexivity. Qed.
-Lemma tables_bijective_pcjr : bijective_tables to_keyword_pcjr to_token_pcjr.
-Proof. apply bijective_tablesb_sound. vm_compute. reflexivity. Qed.
-Lemma tables_bijective_tandy : bijective_tables to_keyword_tandy to_token_tandy.
-Proof. apply bijective_tablesb_sound. vm_compute. reflexivity. Qed.
-
-Lemma tables_bijective_all :
-  Forall (fun p => bijective_tables (fst p) (snd p)) tk_syntaxes.
-Proof.
-  unfold tk_syntaxes.
-  apply Forall_cons; [exact tables_bijective_advanced|].
-  apply Forall_cons; [exact tables_bijective_pcjr|].
-  apply Forall_cons; [exact tables_bijective_tandy|].
-  apply Forall_nil.
 Qed.
 
 (* ---- finite range sweeps lifted to forall ---- *)
